@@ -7,7 +7,7 @@ The oracle does NOT reuse the library's predicates: every pattern is (re)built c
 meaning (blocks / lines / corner rectangles / border distance laid out from the first corner of the visible
 selection), see `doc_pattern`.
 """
-import itertools, math
+import itertools
 from harness import common
 
 STATES = ("full", "edge", "grid", "lines", "corners")
@@ -266,8 +266,9 @@ def run(ctx):
                                 sig["blocks_per_row"] = ("more-than-ceil(height/period_x)"
                                                          if ncols > -(-(Y2 - Y1 + 1) // px) else "within-ceil(height/period_x)")
                             two = sorted(ch, key=lambda t: str(lab.get(t)))
+                            part = lambda t: sorted(lab[t]) if t in lab else "no part of the pattern"
                             bad.append((sig, f"one chunk holds tiles of different {c['st']} parts: "
-                                             f"{two[0]} in {sorted(lab[two[0]])} and {two[-1]} in {sorted(lab[two[-1]])}"))
+                                             f"{two[0]} in {part(two[0])} and {two[-1]} in {part(two[-1])}"))
                             break
         return bad
 
